@@ -357,6 +357,66 @@ def register(M):
         o, e = args
         return tm.ite(opt_is_some(o), tm.ok(opt_val(o)), tm.err(e))
 
+    @reg("std::option::Option::<T>::map_or")
+    def opt_map_or(ev, fr, prog, fty, args, cx):
+        o, d, f = args
+        return ev.branch(opt_is_some(o), lambda: ev.apply(f, [opt_val(o)]), lambda: d)
+
+    @reg("std::option::Option::<T>::map_or_else")
+    def opt_map_or_else(ev, fr, prog, fty, args, cx):
+        o, df, f = args
+        return ev.branch(opt_is_some(o), lambda: ev.apply(f, [opt_val(o)]), lambda: ev.apply(df, []))
+
+    @reg("std::option::Option::<T>::is_some_and")
+    def opt_is_some_and(ev, fr, prog, fty, args, cx):
+        o, f = args
+        return ev.branch(opt_is_some(o), lambda: ev.apply(f, [opt_val(o)]), lambda: tm.FALSE)
+
+    @reg("std::option::Option::<T>::is_none_or")
+    def opt_is_none_or(ev, fr, prog, fty, args, cx):
+        o, f = args
+        return ev.branch(opt_is_some(o), lambda: ev.apply(f, [opt_val(o)]), lambda: tm.TRUE)
+
+    @reg("std::option::Option::<T>::zip")
+    def opt_zip(ev, fr, prog, fty, args, cx):
+        a, b = args
+        return tm.ite(tm.and_(opt_is_some(a), opt_is_some(b)), tm.some(tm.tup(opt_val(a), opt_val(b))), tm.NONE)
+
+    @reg("std::option::Option::<T>::and")
+    def opt_and(ev, fr, prog, fty, args, cx):
+        a, b = args
+        return tm.ite(opt_is_some(a), b, tm.NONE)
+
+    @reg("std::option::Option::<T>::xor")
+    def opt_xor(ev, fr, prog, fty, args, cx):
+        a, b = args
+        return tm.ite(opt_is_some(a), tm.ite(opt_is_some(b), tm.NONE, a), b)
+
+    @reg("std::result::Result::<T, E>::map_or")
+    def res_map_or(ev, fr, prog, fty, args, cx):
+        r, d, f = args
+        return ev.branch(res_is_ok(r), lambda: ev.apply(f, [res_ok(r)]), lambda: d)
+
+    @reg("std::result::Result::<T, E>::map_or_else")
+    def res_map_or_else(ev, fr, prog, fty, args, cx):
+        r, df, f = args
+        return ev.branch(res_is_ok(r), lambda: ev.apply(f, [res_ok(r)]), lambda: ev.apply(df, [res_err(r)]))
+
+    @reg("std::result::Result::<T, E>::is_ok_and")
+    def res_is_ok_and(ev, fr, prog, fty, args, cx):
+        r, f = args
+        return ev.branch(res_is_ok(r), lambda: ev.apply(f, [res_ok(r)]), lambda: tm.FALSE)
+
+    @reg("std::result::Result::<T, E>::is_err_and")
+    def res_is_err_and(ev, fr, prog, fty, args, cx):
+        r, f = args
+        return ev.branch(res_is_ok(r), lambda: tm.FALSE, lambda: ev.apply(f, [res_err(r)]))
+
+    @reg("std::result::Result::<T, E>::err")
+    def res_err_opt(ev, fr, prog, fty, args, cx):
+        r = args[0]
+        return tm.ite(res_is_ok(r), tm.NONE, tm.some(res_err(r)))
+
     @reg("std::option::Option::<T>::unwrap", "std::option::Option::<T>::expect")
     def opt_unwrap(ev, fr, prog, fty, args, cx):
         o = args[0]
